@@ -251,7 +251,7 @@ fn out_of_range<L: fmt::Debug, R: fmt::Debug>(left: L, op: &'static str, right: 
 
 /// A duration as a count of nanoseconds: chrono multiplies and divides by an `i32` only, while
 /// `1ns * 3000000000` is a perfectly good 3s.
-fn duration_nanos(d: Duration) -> i128 {
+pub(crate) fn duration_nanos(d: Duration) -> i128 {
     i128::from(d.num_seconds()) * 1_000_000_000 + i128::from(d.subsec_nanos())
 }
 
